@@ -111,6 +111,26 @@ these units only):
   left operand of `in`.  `return <comparison> and <call>` evaluates the call only if the comparison holds.  `assert` is dropped.
   `for a, b in e` unpacks a fresh loop variable.  `x.m(..)` as a statement on a local IPSet x, for a method m that assigns the
   state, is `x = x.m(..)`.
+* Index-driven traversal needs nothing new: `l[i]` = py_index, `i += 1`, `while i < n` with the fuel of FUEL.  An out-parameter
+  (SETS_OUTPARAM: `ranges` of _subtract, a list the function appends to and the caller reads afterwards): the function returns
+  (that list, its value) and the call `x = f(.., l)` is `l, x = f(.., l)`.  A generator function (`yield`) whose callers consume it
+  at once in a `for` is the function that returns the list of what it yields (sets_yield).  Tuples of values are Coq tuples, an
+  IPAddress component is its pair (version, value); `[e for x in xs]` with a pure e = map.
+* Variants by argument type (`add:net`, `add:iprange`, `update:ipset/net/iprange/list`, `__init__:none/net/iprange/ipset/list`,
+  `remove:net/iprange`): `isinstance(<name>, C)` and `<parameter> is None` are decided by the declared type (`ipset` IPSet, `net`
+  IPNetwork, `iprange` IPRange = (version, start, end), `list net`, `none`; also for the loop variable of a `for` over a `list net`
+  parameter); a decided branch that ends with return / raise is not followed by the rest of the block.  A call `x.m(a)` /
+  `self.m(a)` of a method translated in variants picks the variant by the type of `a`; missing trailing arguments take their int
+  defaults.  `r[i]` on an `iprange` = the translated IPListMixin.__getitem__:int for IPRange.
+* _compact_single_network changes its parameter in place (SETS_MUTABLE_PARAMS): it is translated on a local copy; accepted only if
+  every read of the parameter is x.<attr>, `x in d`, `x == y`, or the key of `d[x] = True` / `del d[x]`, if `del d[x]` precedes the
+  attribute assignments in their block (the object is in no dict when it changes), and if every caller does not read its argument
+  after the call.  `x.prefixlen = e` goes through the translated setter _set_prefixlen, `x._value = e` is a record update;
+  `x.previous()` / `x.next()` = py_net_previous / py_net_next (hand models), `x.supernet()` = the translated method.
+  `X = None / for v in d: if c: X = ..; break / if X is not None: body` at the end of a function is
+  `for v in d: if c: X = ..; body; return` (inline_search_loop).  `{k: True}` = py_dict_set [] k, `d.popitem()[0]` in a return =
+  py_dict_popitem.  The auxiliary names h<N> inside and after loop N of a sets unit start at 1000 * N (a loop after an `if` with
+  exits is translated once per branch and both texts must agree).
 """
 import ast
 import os
@@ -284,13 +304,17 @@ SETS_UNITS = [
       ("IPSet", "update:list", {"iterable": "list net"})] +
      [("IPSet", "__init__:" + t.split()[0], {"iterable": t}) for t in ("none", "net", "iprange", "ipset", "list net")]),
 ]
-UNITS += SETS_UNITS
-FILES = FILES + tuple(u[1] for u in SETS_UNITS)
+# IPNetwork.__getstate__ (netaddr/ip/__init__.py) for IPSet.__getstate__: a unit of its own, before the sets units
+SETS_IP_UNIT = (IPFILE, "pysrc_sets_ip_gen.v", "", "", [("IPNetwork", "__getstate__", {})])
+SETS_UNITS.append(
+    (SETSFILE, "pysrc_sets_state_gen.v", "sets", SETS_REQ, [("IPSet", "__getstate__", {}), ("IPSet", "__setstate__", {"state": "list rng"})]))
+UNITS += [SETS_IP_UNIT] + SETS_UNITS
+FILES = FILES + (SETS_IP_UNIT[1],) + tuple(u[1] for u in SETS_UNITS)
 SETS_FILES = tuple(u[1] for u in SETS_UNITS)
 STATE["IPSet"] = ()
 STATEVARS["IPSet"] = (("_cidrs", "dict"),)          # the dict `_cidrs` (IPNetwork keys, values True) = the list of its keys
 COQTY.update({"dict": "(list net)", "ipset": "(list net)", "iprange": "(Z * Z * Z)", "none": "unit"})
-SETS_VALUE_TYPES = ("dict", "ipset", "iprange")
+SETS_VALUE_TYPES = ("dict", "ipset", "iprange", "tuple")
 HASATTR[("ipset", "_cidrs")] = True
 for _u in SETS_FILES:
     UNIT_NAMES[_u] = {"_sys_maxint": ("int", "ssize_max")}
@@ -311,7 +335,7 @@ FUEL[("IPSet", "_compact_single_network", 4)] = ("added_network.prefixlen", 1)  
 # dict when it is changed (checked: `del d[x]` precedes the attribute assignments in their block)
 SETS_MUTABLE_PARAMS = {("IPSet", "_compact_single_network"): "added_network"}
 RESERVED |= set("py_dict_mem py_dict_set py_dict_del py_dict_fromkeys py_dict_update py_dict_eqb py_dict_popitem py_sorted_nets "
-                "py_net_ltb py_index py_list_from py_sum py_cidr_merge_nets py_iprange py_net_of_addr py_net_previous py_net_next".split())
+                "py_net_ltb py_index py_list_from py_sum py_cidr_merge_nets py_iprange py_net_of_addr py_net_previous py_net_next py_map_o".split())
 
 
 class Untranslatable(Exception):
@@ -2483,6 +2507,8 @@ def sets_rhs(self, node, env):
         if g.ifs or g.is_async or not isinstance(g.target, ast.Name) or g.target.id in env:
             bad(node, "list comprehension other than [e for x in xs] with a fresh x")
         (tl, l) = self.ex(g.iter, env)
+        if tl == "dict":                                    # over a dict: its keys
+            tl = ("list", Cell("net"))
         elem = tl[1].find().t if is_list(tl) else None
         if elem is None:
             bad(node, "comprehension over %s" % show(tl))
@@ -2630,6 +2656,30 @@ def sets_call(self, node, env):
         if (isinstance(src, ast.GeneratorExp) and len(src.generators) == 1 and not src.generators[0].ifs and isinstance(src.elt, ast.Name)
                 and isinstance(src.generators[0].target, ast.Name) and src.elt.id == src.generators[0].target.id and src.elt.id not in env):
             src = src.generators[0].iter                # (x for x in l), consumed at once: l
+        if isinstance(src, ast.GeneratorExp):
+            # (e for x in l) / (e for a, b, c in l), consumed at once, where e may raise: py_map_o (the first exception wins)
+            g = src.generators
+            names = [g[0].target] if isinstance(g[0].target, ast.Name) else list(getattr(g[0].target, "elts", []))
+            if not (len(g) == 1 and not g[0].ifs and not g[0].is_async and names and all(isinstance(x, ast.Name) and x.id not in env for x in names)):
+                bad(node, "generator expression other than (e for x in l) / (e for a, b in l) with fresh names")
+            (tl, l) = self.ex(g[0].iter, env)
+            elem = tl[1].find().t if is_list(tl) else None
+            etys = [elem] if isinstance(g[0].target, ast.Name) else (list(elem[1]) if isinstance(elem, tuple) and elem[0] == "tup" else None)
+            if elem is None or etys is None or len(etys) != len(names) or any(not is_value(t) for t in etys):
+                bad(node, "generator expression over %s" % show(tl))
+            lenv, cns = env, []
+            for x, xty in zip(names, etys):
+                cn, lenv = self.bind_local(x, x.id, xty, lenv, g[0].iter)
+                cns.append(cn)
+            saved, self.pre = self.pre, []
+            r = self.rhs(src.elt, lenv)
+            inner, self.pre = self.pre, saved
+            if inner or r[0] != "out" or r[1] != "net":
+                bad(node, "generator expression whose element is not one call that makes an IPNetwork")
+            pat = cns[0] if isinstance(g[0].target, ast.Name) else "'(%s)" % ", ".join(cns)
+            h = self.fresh()
+            self.hoist(node, ("bind", h, "(py_map_o (fun %s => %s) %s)" % (pat, r[2], l)))
+            return ("dict", "(py_dict_fromkeys %s)" % h)
         (tl, l) = self.ex(src, env)
         if not is_list(tl):
             bad(node, "dict.fromkeys of %s" % show(tl))
@@ -2981,6 +3031,8 @@ def _srca_tr_init(old, self, *a, **kw):
 
 @_wrap(Translator, "get")
 def _srca_tr_get(old, self, recv, name, node=None):
+    if self.out in SETS_FILES and any(w[:2] == (recv, name) for w in SETS_IP_UNIT[4]) and BY_OUT.get(SETS_IP_UNIT[1]) is not None:
+        return BY_OUT[SETS_IP_UNIT[1]].get(recv, name, node)
     if self.out in SETS_FILES and not any(w[:2] == (recv, name) for w in self.specs):
         for out in SETS_FILES:                          # a definition of an earlier sets unit
             t = BY_OUT.get(out)
